@@ -277,6 +277,27 @@ class EqRaises:
     raise ValueError('the truth value of this comparison is ambiguous')
 
 
+def _same_named_workers():
+  # two registered classes that share their class name AND the name of a registered method, in two modules:
+  # the printed selector of each method has to be widened until it is unique (seeded change C06-c printed
+  # `Worker.run` for both)
+  def make():
+    class Worker:
+      def __init__(self, w=0):
+        self.w = w
+
+      @gin.register
+      def run(self, steps=0):
+        return steps
+    return Worker
+  for mod in ('vw06.alpha', 'vw06.beta'):
+    if mod + '.Worker' not in gc._REGISTRY:
+      gin.register('Worker', module=mod)(make())
+
+
+_same_named_workers()
+
+
 def K(name, acts, omit=(), either=(), consts=(), eqonly=()):
   return dict(name=name, acts=acts, omit=set(omit), either=set(either), consts=list(consts), eqonly=set(eqonly))
 
@@ -323,6 +344,11 @@ KCAT = [
     K('singleton', [('text', 'k/gin.singleton.constructor = @vw.src'), ('text', 'vw.kws.sg = @k/gin.singleton()')]),
     K('wrapped strings nested in list / dict / 1-tuple, edge whitespace, bytes', [('bind', 'vw.kws.strs', WVALS[8:11])]),
     K('partial constant name', [('text', 'vw.kws.pc = %K')]),
+    K('methods of two same-named classes in different modules',
+      [('text', 'vw06.alpha.Worker.run.steps = 1'), ('text', 'vw06.beta.Worker.run.steps = 2'),
+       ('text', 's/vw06.beta.Worker.run.steps = 3')]),
+    K('one of two same-named classes, and one of their methods',
+      [('text', 'vw06.beta.Worker.w = 4'), ('text', 't/vw06.alpha.Worker.run.steps = 5')]),
 ]
 NK = len(KCAT)
 NREPORT = 6
